@@ -101,6 +101,10 @@ type mtCase struct {
 	Events    []mtEvent `json:"events"`
 	Horizon   int       `json:"horizon_ms"`
 	Kind      string    `json:"kind"`
+	// Mirror: while the events run in their direction, the same operations with the SAME ids run in the other direction on
+	// the same pair of brokers (ids are per direction: the host accepting id n while it dials id n is everyday traffic,
+	// e.g. a callback pending during a Dispense).  The mirrored traffic is not part of the model's input.
+	Mirror bool `json:"mirror,omitempty"`
 }
 
 func init() { families["muxtimed"] = runMuxTimed }
@@ -141,14 +145,14 @@ func genMuxTimed(o opts) []mtCase {
 	}
 	var cs []mtCase
 	for i, evs := range directed {
-		c := mtCase{HostDials: i%2 == 0, Events: append([]mtEvent{}, evs...), Kind: "directed"}
+		c := mtCase{HostDials: i%2 == 0, Events: append([]mtEvent{}, evs...), Kind: "directed", Mirror: i%4 == 1}
 		fresh(&c, 9500, 2)
 		c.Horizon = 11000
 		cs = append(cs, c)
 	}
 	// many distinct ids outstanding at once, accept and dial of each id a few ms apart in either order
 	for k := 0; k < 2; k++ {
-		c := mtCase{HostDials: k == 0, Kind: "concurrent"}
+		c := mtCase{HostDials: k == 0, Kind: "concurrent", Mirror: true}
 		t := 0
 		for id := uint32(20); id < 28; id++ {
 			t += 3 + r.Intn(5)
@@ -166,7 +170,7 @@ func genMuxTimed(o opts) []mtCase {
 	// bursts: the accept and the dial of every id are issued at the same instant, many ids at once (the slot of an id
 	// may be created by either side: both creations racing must still meet in one slot)
 	for k := 0; k < 3; k++ {
-		c := mtCase{HostDials: k%2 == 0, Kind: "burst"}
+		c := mtCase{HostDials: k%2 == 0, Kind: "burst", Mirror: k == 1}
 		for wave := 0; wave < 4; wave++ {
 			t := 50 + 400*wave
 			for j := 0; j < 12; j++ {
@@ -260,6 +264,26 @@ func runOneMuxTimed(c mtCase) (sx.V, sx.V) {
 	}
 	var mu sync.Mutex
 	start := time.Now()
+	if c.Mirror {
+		for _, e := range c.Events {
+			if e.Kind == "rawclose" || e.BulkAtMs > 0 {
+				continue
+			}
+			go func(e mtEvent) {
+				time.Sleep(time.Until(start.Add(time.Duration(e.AtMs) * time.Millisecond)))
+				var conn net.Conn
+				if e.Kind == "dial" {
+					conn, _ = acceptor.Dial(e.ID)
+				} else {
+					conn, _ = dialer.Accept(e.ID)
+				}
+				if conn != nil {
+					time.Sleep(100 * time.Millisecond)
+					conn.Close()
+				}
+			}(e)
+		}
+	}
 	for i, e := range c.Events {
 		go func(i int, e mtEvent) {
 			time.Sleep(time.Until(start.Add(time.Duration(e.AtMs) * time.Millisecond)))
